@@ -1,6 +1,7 @@
 (** * Proofs/SimExamples.v — the concrete system and histories used by the
-    non-vacuity examples of Props/C07.v (definitions only). *)
-From Patronus Require Import Sim.
+    non-vacuity examples of Props/C07.v (definitions, and the one example whose
+    hypotheses need more than [vm_compute]). *)
+From Patronus Require Import Sim BVLemmas SimCanonProofs.
 Open Scope N_scope.
 
 (** an array state, an init expression that reads an earlier state, a state
@@ -40,3 +41,20 @@ Definition state_of (r : outcome (sim * list obs)) : sim :=
   match r with Done (s, _) => s | _ => sim0 end.
 
 Definition is_done {A} (r : outcome A) : bool := match r with Done _ => true | _ => false end.
+
+(** a history whose generated values and set values are canonical *)
+Definition ex_hist_canon : list op :=
+  [ OInit (KRandom (fun _ => (9, fun i => i mod 16))); OSet (BVSymbol "i" 4) 4 5; OStep;
+    OGet (BVSymbol "a" 4); OGet (ArraySymbol "m" 2 4) ].
+
+Lemma ex_canon_ok :
+  sim_ok ex_sys = true /\ hist_ok ex_sys ex_hist_canon = true /\ Forall (op_canon ex_sys) ex_hist_canon.
+Proof.
+  split; [vm_compute; reflexivity|]. split; [vm_compute; reflexivity|].
+  unfold ex_hist_canon. repeat constructor; cbn [op_canon]; try (vm_compute; reflexivity).
+  intros pos s Hn.
+  do 5 (destruct pos as [|pos];
+        [cbn in Hn; inversion Hn; subst; cbn [type_of gen_bv gen_arr fst snd];
+         try (vm_compute; reflexivity); intros i; change 16 with (2 ^ 4); apply mod_bound|]).
+  cbn in Hn. destruct pos; discriminate Hn.
+Qed.
